@@ -636,3 +636,119 @@ func c06Boundary(args []string) int {
 }
 
 func init() { cmds["c06-boundary"] = c06Boundary }
+
+// ---- FixedLegacy.tla cases: by_header_footer envelopes of the legacy fixed-length reader
+
+type flEnv struct {
+	Hdr string `json:"hdr"`
+	Ftr string `json:"ftr"`
+	Nt  bool   `json:"nt"`
+}
+type flLegacyCase struct {
+	Lines [][]string        `json:"lines"`
+	Envs  []flEnv           `json:"envs"`
+	Cols  []flCol           `json:"cols"`
+	Recs  [][][]interface{} `json:"recs"`
+	End   string            `json:"end"`
+	Nt    bool              `json:"nt"`
+}
+
+func c06Legacy(args []string) int {
+	sum := newSummary()
+	r := rng(616)
+	nviol := 0
+	schemas := map[string]omniparser.Schema{}
+	err := readLines(args[0], func(line []byte) error {
+		var c flLegacyCase
+		if e := json.Unmarshal(line, &c); e != nil {
+			return e
+		}
+		fixedPayloadAlt = r.Intn(2) == 0
+		fp := fixedPayload()
+		fp.m["G"] = "G~"
+		if fixedPayloadAlt {
+			fp.m["G"] = "Gü世"
+		}
+		var cols []string
+		for k, col := range c.Cols {
+			s := fmt.Sprintf(`{"name": "c%d", "start_pos": %d, "length": %d`, k+1, (col.Idx-1)*flW+1, flW)
+			if col.Lp != "" {
+				s += `, "line_pattern": "^` + col.Lp + `"`
+			}
+			cols = append(cols, s+"}")
+		}
+		var envs []string
+		for k, e := range c.Envs {
+			nt := ""
+			if e.Nt {
+				nt = `"not_target": true, `
+			}
+			envs = append(envs, fmt.Sprintf(`{"name": "E%d", "by_header_footer": {"header": "^%s", "footer": "^%s"}, %s"columns": [%s]}`,
+				k+1, e.Hdr, e.Ftr, nt, strings.Join(cols, ", ")))
+		}
+		schema := `{"parser_settings": {"version": "omni.2.1", "file_format_type": "fixed-length"},
+ "file_declaration": {"envelopes": [` + strings.Join(envs, ", ") + `]},
+ "transform_declarations": {"FINAL_OUTPUT": {"object": {"x": {"const": "1"}}}}}`
+		sch := schemas[schema]
+		if sch == nil {
+			s, e, p := newSchema([]byte(schema))
+			if e != nil || p != "" {
+				return fmt.Errorf("legacy fixed-length schema rejected: %v %s\n%s", e, p, schema)
+			}
+			sch, schemas[schema] = s, s
+		}
+		input := renderFixed(c.Lines, fp, r.Intn(3) == 0, r.Intn(3) != 0)
+		var got []obsRec
+		var end, detail string
+		pv, _ := guarded(0, func() { got, end, detail = runFlat(sch, input, len(c.Lines)+3) })
+		if end == "unexpected" { // runFlat's name for a fatal end
+			end = "fatal"
+		}
+		var exp []obsRec
+		for _, rec := range c.Recs {
+			o := obsRec{}
+			for _, cv := range rec {
+				v := fp.m[cv[1].(string)]
+				if cv[1].(string) != "" {
+					v = padRunes(v, flW)
+				}
+				o = append(o, [2]string{fmt.Sprintf("c%d", int(cv[0].(float64))), v})
+			}
+			exp = append(exp, o)
+		}
+		norm := func(rs []obsRec) string {
+			var out []string
+			for _, rec := range rs {
+				var cs []string
+				for _, cv := range rec {
+					cs = append(cs, cv[0]+"="+cv[1])
+				}
+				sort.Strings(cs)
+				out = append(out, strings.Join(cs, "\x00"))
+			}
+			return strings.Join(out, "\x01")
+		}
+		sum.eval(c.Nt, M{"i": input, "s": schema})
+		if pv != "" || end != c.End || norm(got) != norm(exp) {
+			nviol++
+			if nviol <= 30 {
+				violation("C06", "fixed-length-envelopes", fmt.Sprintf("legacy fixed-length, input %q: expected end=%s records=%v; got end=%s %s records=%v %s", input, c.End, exp, end, detail, got, pv),
+					M{"input": input, "schema": schema, "expected_end": c.End, "end": end})
+			}
+		}
+		if c.Nt {
+			sum.sample(M{"lines": c.Lines, "envelopes": c.Envs, "columns": c.Cols, "expected": c.Recs})
+		}
+		return nil
+	})
+	fixedPayloadAlt = false
+	if err != nil {
+		fmt.Println("error:", err)
+		return 3
+	}
+	sum.inc("mismatches", nviol)
+	sum.done()
+	return 0
+}
+
+func init() { cmds["c06-legacy"] = c06Legacy }
